@@ -161,10 +161,12 @@ impl<'a> Fmt<'a> {
         self.dev.0.borrow().get(b)
     }
     fn link_chain(&mut self, chain: &[u32]) {
+        // every value from ...F8 to ...FF ends a chain: other systems write ...F8 or ...FF, mkfs.fat ...F8 for the FAT32 root
+        let eoc = [0xFFFFu32, 0xFFF8, 0xFFFF, 0xFFFE, 0xFFFB][(chain.first().copied().unwrap_or(0) % 5) as usize];
         for (i, &c) in chain.iter().enumerate() {
             assert!(self.g.in_window(c), "cluster {} not in window", c);
             assert!(self.fat.get(&c).copied().unwrap_or(0) == 0, "cluster {} used twice", c);
-            let nxt = if i + 1 < chain.len() { chain[i + 1] } else if self.g.fat32 { 0x0FFF_FFFF } else { 0xFFFF };
+            let nxt = if i + 1 < chain.len() { chain[i + 1] } else if self.g.fat32 { 0x0FFF_0000 | eoc } else { eoc };
             self.fat.insert(c, nxt);
         }
     }
